@@ -1,10 +1,14 @@
 """C13 - federation request authentication: FedRequest.tla <-> fclient Sign / HTTPRequest / VerifyHTTPRequest.
 
 spec -> code: every Receive outcome of FedRequest.tla within the tier's bounds (request classes x emit style x
-tamper sets of size <= 2 x receiver configuration x key database state) is realised with the real sender
+tamper sets of size <= 2 (incl. method / request target changed in letter case only) x receiver configuration x key database state) is realised with the real sender
 (FederationRequest.Sign with an ed25519 key, HTTPRequest, Request.Write), tampered with as text, read back with
 http.ReadRequest and verified by the real VerifyHTTPRequest over a real KeyRing; accept/refuse and the five
-reported fields are compared.
+reported fields are compared; an accepted request then stays in use while the same receiver handles later requests (Later: bodies of the same
+length / shorter / longer / none) and must go on reporting what it reported.
+spec -> code (names): every server name FedName_gen.tla builds near the IPv6-literal grammar (token kinds: groups, colons,
+dotted quad, zone identifier, over-long / non-hex group, brackets, port) is given a text, a request is validly signed under
+it and given to VerifyHTTPRequest: accepted iff FedName!ValidName; a valid name also serves as destination.
 code -> spec: seeded random Authorization headers built from the token alphabet of FedHeader.tla go through
 the real ParseAuthorization; FedRequest_trace.tla re-derives every parsed field from the tokens."""
 import json
@@ -27,11 +31,14 @@ def run(ctx):
         "verdict left open (either answer; an accepted request must still be the signed one) where the property sentence is "
         "silent: scheme spelled X-MATRIX / x-matrix, sig re-encoded in padded or URL-safe base64",
         "a receiver whose local-name function rejects every name is not given requests without destination parameter",
+        "server names: an IPv6 literal is the RFC 4291 section 2.2 text form in brackets ('::' stands for one or more groups; no zone "
+        "identifier); a run of digits and dots that is not an IPv4 address is a DNS name; port = 1-5 digits <= 65535 (0 allowed)",
+        "later requests (Later) are handled by the same goroutine with the same key ring, one after the other",
         "header grammar trace: values without comma, quote or backslash; lower-case parameter names; commas never dropped "
         "(outside these the grammars in circulation disagree and the property sentence does not decide)",
     ]
     cfg = "FedRequest_gen_%s.cfg" % ctx.tier
-    r = ctx.tlc("FedRequest_gen", cfg, timeout=1500)
+    r = ctx.tlc("FedRequest_gen", cfg, timeout=1500, heap="4g")    # (bounded heap: the machine is shared)
     ctx.exhaustive = True
     ctx.notes["rule"] = (
         "every Receive outcome of FedRequest.tla with (deviations from the base request: method, URI class, origin shape, "
@@ -40,9 +47,20 @@ def run(ctx):
         "(quick 2, thorough 3), fully crossed with body class {none, object, non-UTF-8} x destination ownership {primary, "
         "secondary, foreign} x receiver configuration {single, multi}: all single tamperings and all pairs; distinct = distinct "
         "(tamper set, body, ownership, configuration, key state, keys, entry, shapes, spellings, style, verdict) classes; "
+        "accepted requests x class of later requests {same length, shorter, longer, no body} within the budget; "
         "plus token-kind classes of the header trace")
     ctx.notes["constants"] = cfg
     ctx.replay_and_compare("c13", r.records, pkg=PKG)
+
+    # server names: the grammar of FedName.tla, token by token
+    rn = ctx.tlc("FedName_gen", "FedName_gen_%s.cfg" % ctx.tier, timeout=600, heap="2g")
+    ctx.notes["rule_names"] = (
+        "every name FedName_gen.tla builds: IPv6 literal bodies (a groups, '::' or not, b groups, dotted-quad tail or not, "
+        "a + b <= MaxTotal) x one defect (zone identifier at the end / inside, group of 5+ digits, non-hex group, single colon at "
+        "either end, dotted quad first, second '::') x bracketing (both, bare, open only, close only, doubled) x what follows "
+        "(nothing, :port, ':' alone, port without colon), plus the non-literal names; distinct = distinct token-kind sequences; "
+        "each validly signed as X-Matrix origin (key on file under the name as spelled) and, if valid, used as destination")
+    ctx.replay_and_compare("c13name", rn.records, pkg=PKG)
 
     # code -> spec: header grammar
     n = 4000 if ctx.tier == "quick" else 60000
